@@ -23,7 +23,9 @@ Oracle (the property statement):
         location of the offset for every ExprInt leaf                   (missing-edge:loc / missing-edge:int)
 """
 import collections
+import contextlib
 import gc
+import io
 
 from mc import insngen as g
 from mc.runner import violation
@@ -69,7 +71,7 @@ BOUNDS = {
             "thumb": {"ext": 1, "stride": 32},
             "msp430": {"ext": 1, "stride": 32},
             "word16": {"ext": 1, "stride": 32},
-            "x86": {"prefix": 7, "maps": 2, "second": 1, "tail": 1},
+            "x86": {"prefix": 3, "maps": 2, "second": 1, "tail": 1},
         }, _NAT),
         "shard": 512, "bundles": 16,
     },
@@ -165,12 +167,40 @@ def exc_class(e, instr):
     return name
 
 
+_NOP = {"mips32": "00000000", "arm": "bf00"}       # big-endian unit values: MIPS32 NOP, Thumb NOP
+
+
+def _context(name, t, instr):
+    """Instructions that only make sense with successors are lifted the way the disassembly engine presents them:
+    a flow-changing instruction with a delay slot (MIPS32) is followed by its delay-slot instruction, a Thumb IT
+    instruction by the instructions of its IT block.  The successors are NOPs."""
+    n = 0
+    if t.kind == "thumb":
+        nm = instr.name
+        if nm.startswith("IT") and 2 <= len(nm) <= 5 and set(nm[2:]) <= set("TE"):
+            n = len(nm) - 1
+    elif instr.delayslot and instr.breakflow():
+        n = instr.delayslot
+    if not n:
+        return []
+    out = []
+    off = instr.offset + instr.l
+    unit = t.unit
+    for _k in range(n):
+        nop = g.decode(name, t.pack([int(_NOP[t.testdir], 16)]))
+        nop.offset = off & ((1 << t.pc_bits) - 1)
+        off += nop.l
+        out.append(nop)
+    return out
+
+
 def lift_once(name, raw, a, instr=None):
     """Lift the instruction decoded from raw at address class a.
     -> (outcome, kinds, counters, instr)   outcome in undecodable / unsupported / raised / lifted;
        kinds = list of (kind, detail) violations.
     instr: an already decoded instruction whose args were not modified (else raw is decoded again)."""
     from miasm.core.locationdb import LocationDB
+    from miasm.core.asmblock import AsmBlock
     from miasm.expression.expression import ExprId, ExprMem
     t, mn, cls, allowed = _lift_env(name)
     if instr is None:
@@ -189,7 +219,15 @@ def lift_once(name, raw, a, instr=None):
         cnt["prep_raised:" + type(e).__name__] = 1
     try:
         ircfg = lifter.new_ircfg()
-        lifter.add_instr_to_ircfg(instr, ircfg)
+        ctx_lines = _context(name, t, instr)
+        if ctx_lines:
+            # same thing add_instr_to_ircfg does, with the lines the instruction cannot be lifted without
+            cnt["with_context"] = 1
+            block = AsmBlock(loc_db, loc_db.get_or_create_offset_location(instr.offset))
+            block.lines = [instr] + ctx_lines
+            lifter.add_asmblock_to_ircfg(block, ircfg)
+        else:
+            lifter.add_instr_to_ircfg(instr, ircfg)
     except NotImplementedError:
         return "unsupported", [], cnt, instr
     except Exception as e:
@@ -268,6 +306,7 @@ def judge(name, raw, first=None):
 
 
 def _shard(shard):
+    g.quiet()
     name = shard[0]
     stats = {}
     counters = collections.Counter()
@@ -292,7 +331,8 @@ def _shard(shard):
 
 
 def _bundle(bundle):
-    return [_shard(s) for s in bundle]
+    with contextlib.redirect_stdout(io.StringIO()):      # ppc/sem.py print()s "implemented as NOP" warnings
+        return [g.deep_call(_shard, s) for s in bundle]
 
 
 def plan(tier, only=None):
